@@ -7,7 +7,7 @@ exit 0: the property held on everything explored (known findings are printed)
 exit 1: 'VIOLATION property=<id> replay=<path>' for a violation not listed in KNOWN_FINDINGS.txt
 exit 2: inconclusive (build failure, time-out, trace not accepted, model drift, vacuity) - never a violation
 """
-import argparse, json, os, shutil, sys, time, glob, collections, re
+import argparse, json, os, subprocess, shutil, sys, time, glob, collections, re
 
 sys.path.insert(0, os.path.dirname(os.path.abspath(__file__)))
 import vlib, schedules
@@ -50,10 +50,12 @@ MODELS = {
     "snap": dict(module="MC_Snap.tla", quick=["MC_Snap_quick.cfg"], thorough=["MC_Snap_quick.cfg", "MC_Snap_thorough.cfg"],
                  controls=[("MC_Snap_pinned_complete.cfg", "S_Complete"), ("MC_Snap_pinned_current.cfg", "S_Current"),
                            ("MC_Snap_nolock_window.cfg", "S_Current")],
+                 proofs=["SnapProof.tla"],
                  witnesses=[], variants=[], no_exempt=[], sim_cfg=None),
     # the service table under racing commands (C05, C06, probe part of C17)
     "own": dict(module="MC_Own.tla", quick=["MC_Own_quick.cfg"], thorough=["MC_Own_quick.cfg", "MC_Own_thorough.cfg"],
                 controls=[("MC_Own_nonatomic.cfg", "O_Ownership"), ("MC_Own_nodispose.cfg", "O_FailedLeavesNothing")],
+                proofs=["OwnProof.tla"],
                 witnesses=[], variants=[], no_exempt=[], sim_cfg=None),
 }
 
@@ -119,6 +121,13 @@ def design_runs(family, tier, seed):
     for ccfg, inv in mdl.get("controls", []):
         wd2 = vlib.spec_copy(family + "ctl" + ccfg)
         jobs.append(dict(kind="control", goal=inv, cfg=ccfg, proc=vlib.start_tlc(wd2, mdl["module"], ccfg, workers=2, timeout=200), wd=wd2))
+    for pf in mdl.get("proofs", []):
+        # TLAPS: the invariant is inductive for every value of the constants (unbounded counterpart of the TLC runs)
+        wd2 = vlib.spec_copy(family + "proof")
+        pr = subprocess.Popen(["timeout", "600", "tlapm", "--threads", str(max(2, vlib.NCPU // 2)), "--cleanfp", pf], cwd=wd2,
+                              stdout=subprocess.PIPE, stderr=subprocess.STDOUT, text=True)
+        pr._md = os.path.join(wd2, ".tlacache")
+        jobs.append(dict(kind="proof", goal=pf, cfg=pf, proc=pr, wd=wd2))
     if not mdl.get("sim_cfg"):
         return jobs
     # random behaviours of the design model
@@ -136,6 +145,12 @@ def collect_design(jobs, family):
     for j in jobs:
         rc, out = vlib.finish_tlc(j["proc"])
         verdict = vlib.tlc_verdict(rc, out)
+        if j["kind"] == "proof":
+            m = re.search(r"All (\d+) obligations? proved", out)
+            if not m:
+                raise Inconclusive("TLAPS proof %s does not go through:\n%s" % (j["goal"], out[-2500:]))
+            mc.append(dict(cfg=j["cfg"], verdict="proved by TLAPS for all values of the constants (%s obligations)" % m.group(1), states=0, transitions=0))
+            continue
         if j["kind"] == "control":
             if verdict != "violated:" + j["goal"]:
                 raise Inconclusive("control %s: the variant of the design model must violate %s, got %s" % (j["cfg"], j["goal"], verdict))
